@@ -17,7 +17,8 @@ pub struct W {
     _to_member: futures::channel::mpsc::Receiver<String>,
 }
 
-const KEYS: &[&str] = &["kx", "xk", "akb", "zz", "$$secret"];
+// (`xiwr` is spelt with the four permission letters: a kind must come from the kinds field, not from the pattern text)
+const KEYS: &[&str] = &["kx", "xk", "akb", "zz", "xiwr", "$$secret"];
 
 fn full_state(w: &W) -> String {
     let all = dump_all(&w.node.dbs);
@@ -134,6 +135,11 @@ fn perm_lists(quick: bool) -> Vec<(String, String)> {
     out.push(("bob".to_string(), "r k*,*b".to_string()));
     out.push(("bob".to_string(), "rw *k,a*".to_string()));
     out.push(("bob".to_string(), "rx zz,k*,*k".to_string()));
+    // patterns whose own text contains the letters of kinds the statement does not grant
+    out.push(("bob".to_string(), "r xiwr*".to_string()));
+    out.push(("bob".to_string(), "w *xiwr".to_string()));
+    out.push(("bob".to_string(), "i xiwr".to_string()));
+    out.push(("bob".to_string(), "x xi*|r zz".to_string()));
     out.push(("all".to_string(), "r k*".to_string()));
     out.push(("all".to_string(), "rwix *".to_string()));
     out
